@@ -133,6 +133,42 @@ fn boundary(rng: &mut StdRng, orig: i32) -> i32 {
     }
 }
 
+/// Content classes of a data block: constant (what an empty tile layer or a blank image is --
+/// deflate reaches ~1000:1 on it), short period, slowly changing, incompressible.
+fn fill(rng: &mut StdRng, len: usize) -> Vec<u8> {
+    let seedb: u8 = rng.gen();
+    match rng.gen_range(0..5) {
+        0 => vec![if rng.gen_bool(0.5) { 0 } else { seedb }; len],
+        1 => {
+            let period = rng.gen_range(2..9);
+            (0..len).map(|j| seedb.wrapping_add((j % period) as u8)).collect()
+        }
+        2 => (0..len).map(|j| seedb.wrapping_add((j / 17) as u8)).collect(),
+        _ => (0..len).map(|_| rng.gen()).collect(),
+    }
+}
+
+/// Well-formed files whose data blocks are large and highly compressible (8 KiB .. 256 KiB of
+/// constant / periodic bytes, e.g. the 64x64x4 bytes of an empty tile layer) next to an
+/// incompressible one, really compressed with the repository's zlib (`compress_vec`).
+fn big_blocks(rng: &mut StdRng, len: usize, kind: usize) -> Df {
+    let block: Vec<u8> = match kind {
+        0 => vec![0u8; len],
+        1 => vec![0xa5u8; len],
+        2 => (0..len).map(|j| (j % 4) as u8).collect(),
+        _ => (0..len).map(|j| if j % 4 == 0 { 1 } else { 0 }).collect(),
+    };
+    let noise: Vec<u8> = (0..rng.gen_range(16..200)).map(|_| rng.gen()).collect();
+    Df {
+        types: vec![0, 5],
+        items: vec![
+            Item { t: 0, id: 0, w: vec![1] },
+            Item { t: 5, id: 0, w: vec![0, 2, 0, 3, 64, 64, 1, 255, 255, 255, 255, -1, 0, -1, 0] },
+        ],
+        data: if kind % 2 == 0 { vec![block, noise] } else { vec![noise, block, Vec::new()] },
+    }
+}
+
 fn gen_df(rng: &mut StdRng, big: bool) -> Df {
     let nit = match rng.gen_range(0..10) {
         0 => 0,
@@ -198,11 +234,7 @@ fn gen_df(rng: &mut StdRng, big: bool) -> Df {
                     }
                 }
             };
-            let compressible = rng.gen_bool(0.5);
-            let seedb: u8 = rng.gen();
-            (0..len)
-                .map(|j| if compressible { seedb.wrapping_add((j / 17) as u8) } else { rng.gen() })
-                .collect()
+            fill(rng, len)
         })
         .collect();
     Df { types, items, data }
@@ -335,6 +367,22 @@ pub fn cmd_drive(args: &[String]) {
         seen: Default::default(),
     };
     let mut rng = StdRng::seed_from_u64(seed);
+
+    // (0) well-formed files with large, highly compressible blocks, both versions, real deflate
+    let lens: &[usize] = if big { &[8192, 16384, 40000, 65536, 131072, 262144] } else { &[8192, 16384, 70000] };
+    for (i, &len) in lens.iter().enumerate() {
+        for version in [4, 3] {
+            if version == 3 && !big && i > 0 {
+                continue; // (quick: one large version 3 file is enough, its image is len bytes of JSON)
+            }
+            let len = len + rng.gen_range(0..5);
+            let df = big_blocks(&mut rng, len, i + version as usize);
+            let deflate: Vec<bool> = df.data.iter().map(|_| true).collect();
+            let w = write_df(&df, version, &deflate);
+            let probes = probes_for(&mut rng, &df);
+            out.event(format!("none:big{}", len), true, Some(&df), &w, &w.bytes, &probes);
+        }
+    }
 
     // (1) truncation at every position of a few small files, both versions
     let n_exh = if big { 6 } else { 2 };
